@@ -29,3 +29,46 @@ Print Assumptions c17_before_write_identity.
 Theorem c17_val_length_field : forall it, sub (enc_item_hdr it) 8 4 = be 4 (item_val_length it).
 Proof. exact Neutral.item_val_length_field. Qed.
 Print Assumptions c17_val_length_field.
+
+(* ---------------------------------------------------------------------------------------------- *)
+(* REGENERATED FROM THE SOURCE ON EVERY RUN (tools/gen -> Generated.g_code; Decisions.v) *)
+From GK Require Import GExpr Generated Decisions.
+From Coq Require Import String List.
+Import ListNotations.
+
+(* the callback wrappers: an installed callback is used verbatim with the wrapper's arguments; the defaults are one
+   WriteAt of Item.Val, a fresh buffer filled by one ReadAt, len(Item.Val), a fresh Item; hooks only when installed *)
+Theorem c17_callback_wrappers_are_source :
+  body "Store.ItemValWrite" =
+    [SIf [] (GBin "!=" (GVar "s.callbacks.ItemValWrite") GNil)
+       [SReturn [GCall "s.callbacks.ItemValWrite" [GVar "c"; GVar "i"; GVar "w"; GVar "offset"]]] [];
+     SAssign [GVar "_"; GVar "err"] ":=" [GCall "w.WriteAt" [GVar "i.Val"; GVar "offset"]];
+     SReturn [GVar "err"]] /\
+  body "Store.ItemValRead" =
+    [SIf [] (GBin "!=" (GVar "s.callbacks.ItemValRead") GNil)
+       [SReturn [GCall "s.callbacks.ItemValRead" [GVar "c"; GVar "i"; GVar "r"; GVar "offset"; GVar "valLength"]]] [];
+     SAssign [GVar "i.Val"] "=" [GCall "make" [GOther "[]byte"; GVar "valLength"]];
+     SAssign [GVar "_"; GVar "err"] ":=" [GCall "r.ReadAt" [GVar "i.Val"; GVar "offset"]];
+     SReturn [GVar "err"]] /\
+  body "Item.NumValBytes" =
+    [SIf [] (GBin "!=" (GVar "c.store.callbacks.ItemValLength") GNil)
+       [SReturn [GCall "c.store.callbacks.ItemValLength" [GVar "c"; GVar "i"]]] [];
+     SReturn [GCall "len" [GVar "i.Val"]]] /\
+  body "Store.ItemAlloc" =
+    [SIf [] (GBin "!=" (GVar "s.callbacks.ItemAlloc") GNil)
+       [SReturn [GCall "s.callbacks.ItemAlloc" [GVar "c"; GVar "keyLength"]]] [];
+     SReturn [GUn "&" (GOther "Item{Key: make([]byte, keyLength)}")]] /\
+  body "Store.ItemAddRef" =
+    [SIf [] (GBin "!=" (GVar "s.callbacks.ItemAddRef") GNil) [SExpr (GCall "s.callbacks.ItemAddRef" [GVar "c"; GVar "i"])] []] /\
+  body "Store.ItemDecRef" =
+    [SIf [] (GBin "!=" (GVar "s.callbacks.ItemDecRef") GNil) [SExpr (GCall "s.callbacks.ItemDecRef" [GVar "c"; GVar "i"])] []].
+Proof. exact Decisions.callback_wrappers. Qed.
+Print Assumptions c17_callback_wrappers_are_source.
+
+Theorem c17_item_hooks_guarded_are_source :
+  In (GBin "!=" (GVar "c.store.callbacks.BeforeItemWrite") GNil) (conds 400 (body "itemLoc.write")) /\
+  In (GBin "!=" (GVar "c.store.callbacks.AfterItemRead") GNil) (conds 400 (body "itemLoc.read")) /\
+  In ("c.store.callbacks.BeforeItemWrite", [GVar "c"; GVar "iItem"]) (calls_a 400 (body "itemLoc.write")) /\
+  In ("c.store.callbacks.AfterItemRead", [GVar "c"; GVar "i"]) (calls_a 400 (body "itemLoc.read")).
+Proof. exact Decisions.item_hooks_guarded. Qed.
+Print Assumptions c17_item_hooks_guarded_are_source.
